@@ -11,6 +11,8 @@ def dyadic_setting(rng, tier):
     ts = rng.choice(TS_CHOICES)
     T = 2.0 ** rng.choice([-8, -4, -2, 0, 0, 3, 6, 12])
     grid = rng.choice([4, 8, 8, 16, 16, 32, 64] + ([128, 256] if tier == "thorough" else []))
+    if rng.random() < 0.04:
+        ts = -T            # a recording that ENDS at 0 (t_end == 0.0 is falsy, like an interval end or a spike at 0)
     if rng.random() < 0.06:
         # a recording far from the origin (epoch-style time stamps): still exactly representable on the grid
         ts = rng.choice([2.0 ** 40, -2.0 ** 40, 2.0 ** 30])
